@@ -17,7 +17,7 @@ import (
 )
 
 func init() {
-	report.Register("C04", report.Check{Level: "exploration", QuickBudget: 100 * time.Second, ThoroughBudget: 25 * time.Minute, Run: run})
+	report.Register("C04", report.Check{Level: "exploration", QuickBudget: 240 * time.Second, ThoroughBudget: 25 * time.Minute, Run: run})
 	explore.Register("C04.case", func(p string) explore.Harness {
 		return func(x *explore.X) {
 			parts := strings.Split(p, "\x1f")
